@@ -28,11 +28,46 @@ const (
 
 // IP header flavours.
 const (
-	ipPlain  = iota // IPv4 / IPv6 without extension headers
-	ipExt           // IPv6 with hop-by-hop + destination-options headers (IPv4: same as plain)
-	ipFragNI        // non-initial fragment (IPv4 frag_off != 0 / IPv6 fragment header with offset != 0)
-	ipFrag1         // first fragment (offset 0, more-fragments set): still carries the L4 header
+	ipPlain      = iota // IPv4 / IPv6 without extension headers
+	ipExt               // IPv6 with hop-by-hop + destination-options headers (IPv4: same as plain)
+	ipFragNI            // non-initial fragment (IPv4 frag_off != 0 / IPv6 fragment header with offset != 0): middle, offset 184 bytes, M=1
+	ipFrag1             // first fragment (offset 0, more-fragments set): still carries the L4 header
+	ipFragT256          // tail fragment at byte offset 256, M=0 (IPv6: frag_off bytes 01 00; IPv4: 00 20 - one byte of the field is zero)
+	ipFragTmtu          // tail fragment at the usual MTU offset, M=0 (IPv6 1448 bytes: 05 a8; IPv4 1480 bytes: 00 b9)
+	ipFragAtomic        // IPv6 atomic fragment: fragment header with offset 0 and M=0 (IPv4: an unfragmented packet without DF)
 )
+
+// fragField returns the 16-bit fragment field (network order value) of a fragment flavour and whether the frame still
+// starts a datagram (offset 0: the L4 header follows).
+func fragField(flavour int, v6 bool) (field uint16, initial bool) {
+	if v6 { // offset(13) << 3 | reserved(2) | M
+		switch flavour {
+		case ipFragNI:
+			return 184 | 1, false
+		case ipFrag1:
+			return 1, true
+		case ipFragT256:
+			return 256, false
+		case ipFragTmtu:
+			return 1448, false
+		}
+		return 0, true // atomic
+	}
+	// IPv4: flags(3: reserved, DF, MF) | offset in 8-byte units (13)
+	switch flavour {
+	case ipFragNI:
+		return 0x2000 | 23, false
+	case ipFrag1:
+		return 0x2000, true
+	case ipFragT256:
+		return 256 / 8, false
+	case ipFragTmtu:
+		return 1480 / 8, false
+	}
+	return 0, true
+}
+
+func isFragFlavour(f int) bool { return f >= ipFragNI && f <= ipFragAtomic }
 
 type frameSpec struct {
 	l2       bool
@@ -85,7 +120,7 @@ func (fs *frameSpec) build() (b []byte, ethertype uint16, ipOff int) {
 		switch fs.flavour {
 		case ipExt:
 			ipLen += 16
-		case ipFragNI, ipFrag1:
+		case ipFragNI, ipFrag1, ipFragT256, ipFragTmtu, ipFragAtomic:
 			ipLen += 8
 		}
 	}
@@ -118,12 +153,10 @@ func (fs *frameSpec) build() (b []byte, ethertype uint16, ipOff int) {
 			h[6] = 0                                         // hop-by-hop
 			ext = append(ext, 60, 0, 1, 4, 0, 0, 0, 0)       // hbh: next = dstopts, len 0, PadN(4)
 			ext = append(ext, fs.proto, 0, 1, 4, 0, 0, 0, 0) // dstopts: next = L4
-		case ipFragNI:
+		case ipFragNI, ipFrag1, ipFragT256, ipFragTmtu, ipFragAtomic:
 			h[6] = 44
-			ext = append(ext, fs.proto, 0, 0x00, 0xb9, 0, 0, 0, 7) // offset 23*8, M=1
-		case ipFrag1:
-			h[6] = 44
-			ext = append(ext, fs.proto, 0, 0x00, 0x01, 0, 0, 0, 7) // offset 0, M=1
+			f, _ := fragField(fs.flavour, true)
+			ext = append(ext, fs.proto, 0, byte(f>>8), byte(f), 0, 0, 0, 7)
 		default:
 			h[6] = fs.proto
 		}
@@ -136,12 +169,10 @@ func (fs *frameSpec) build() (b []byte, ethertype uint16, ipOff int) {
 		h[1] = tosByte
 		binary.BigEndian.PutUint16(h[2:], uint16(20+len(l4)))
 		binary.BigEndian.PutUint16(h[4:], 0x1234)
-		switch fs.flavour {
-		case ipFragNI:
-			binary.BigEndian.PutUint16(h[6:], 0x2000|23) // MF, offset 23*8
-		case ipFrag1:
-			binary.BigEndian.PutUint16(h[6:], 0x2000) // MF, offset 0
-		default:
+		if isFragFlavour(fs.flavour) {
+			f, _ := fragField(fs.flavour, false)
+			binary.BigEndian.PutUint16(h[6:], f)
+		} else {
 			h[6] = 0x40 // DF
 		}
 		h[8] = 64
